@@ -514,6 +514,10 @@ func (ch *channel) deriveAndSetBitrates() {
 				totDur += uint64(sdb.items[i].dur)
 				totSize += uint64(sdb.items[i].totSize)
 			}
+			if totDur == 0 {
+				slog.Warn("Cannot derive bitrate since the segments have no duration", "trName", name)
+				continue
+			}
 			bitrate := uint32(totSize * 8 * uint64(timeScale) / totDur)
 		repLoop:
 			for _, asSet := range ch.mpd.Periods[0].AdaptationSets {
@@ -548,6 +552,10 @@ func (ch *channel) deriveAndSetFrameRates(log *slog.Logger) {
 		}
 		prod := nrFrames * timeScale
 		frCGD := GCDuint32(prod, dur)
+		if frCGD == 0 { // Neither samples nor duration
+			log.Warn("Cannot derive frame rate since the first segment is empty", "trName", name)
+			continue
+		}
 		nom := prod / frCGD
 		denom := dur / frCGD
 	repLoop:
